@@ -3,6 +3,7 @@
 use std::{
     cell::UnsafeCell,
     ops::{Index, IndexMut},
+    sync::atomic::{AtomicUsize, Ordering},
 };
 
 use crate::{to_right, Prefix};
@@ -34,7 +35,11 @@ impl<P, T> Node<P, T> {
 /// the inner data. If, however, you own an immutable reference, then you must guarantee that there
 /// is no other reference to the Table that potentially accesses the same node mutably. This interior
 /// mutability is only ever provided in `get_mut`.
-pub(crate) struct Table<P, T>(UnsafeCell<Vec<Node<P, T>>>);
+///
+/// The second field counts the nodes that currently hold a value. It lives next to the nodes (and
+/// is atomic) such that every handle that can add or remove a value, including (possibly several
+/// disjoint) `TrieViewMut`s that only own a shared reference to the table, keeps it up to date.
+pub(crate) struct Table<P, T>(UnsafeCell<Vec<Node<P, T>>>, AtomicUsize);
 
 // Safety:
 // - Sending a PrefixMap over thread boundary is fine. No-one besides us can have the raw pointer,
@@ -78,7 +83,10 @@ impl<P, T> IndexMut<usize> for Table<P, T> {
 
 impl<P: Clone, T: Clone> Clone for Table<P, T> {
     fn clone(&self) -> Self {
-        Self(UnsafeCell::new(self.as_ref().clone()))
+        Self(
+            UnsafeCell::new(self.as_ref().clone()),
+            AtomicUsize::new(self.count()),
+        )
     }
 }
 
@@ -87,12 +95,15 @@ where
     P: Prefix,
 {
     fn default() -> Self {
-        Self(UnsafeCell::new(vec![Node {
-            prefix: P::zero(),
-            value: None,
-            left: None,
-            right: None,
-        }]))
+        Self(
+            UnsafeCell::new(vec![Node {
+                prefix: P::zero(),
+                value: None,
+                left: None,
+                right: None,
+            }]),
+            AtomicUsize::new(0),
+        )
     }
 }
 
@@ -129,6 +140,23 @@ pub(crate) enum DirectionForInsert<P> {
 impl<P, T> Table<P, T> {
     pub(crate) fn into_inner(self) -> Vec<Node<P, T>> {
         self.0.into_inner()
+    }
+
+    /// The number of nodes that currently hold a value.
+    #[inline(always)]
+    pub(crate) fn count(&self) -> usize {
+        self.1.load(Ordering::Relaxed)
+    }
+
+    /// The counter of nodes that hold a value. Whoever adds or removes a value must update it.
+    #[inline(always)]
+    pub(crate) fn counter(&self) -> &AtomicUsize {
+        &self.1
+    }
+
+    /// Get a mutable reference to a node together with the value counter.
+    pub(crate) fn node_and_counter(&mut self, idx: usize) -> (&mut Node<P, T>, &AtomicUsize) {
+        (&mut self.0.get_mut()[idx], &self.1)
     }
 
     /// *Safety*: You must ensure for the lifetime of 'a, that you will never construct a second
